@@ -54,7 +54,11 @@ def run(v, tier, rng):
         m = rng.choice([16, 32])
         for si in range(rng.choice([2, 2, 3])):
             body = [GP.safe_instr(rng, m, []) for _ in range(rng.randrange(1, 5))]
-            if rng.random() < 0.6:
+            if segs and rng.random() < 0.5:
+                # the same statement texts as in the previous group, now in the other mode (their sizes differ): anything
+                # remembered per statement text must not carry over the switch
+                body = [st for st in segs[-1][1] if st[0] == "mn" and st[1] not in ("JMP", "JE", "JNLE", "CALL", "DB")][:3] or body
+            if rng.random() < (0.6 if g % 2 else 1.0):
                 # a branch to a label of its own group as the FIRST statement after the mode switch (relative: the
                 # group assembles to the same bytes alone and in context); kept short so that the 16-bit size estimate holds
                 lab = "sw%d_%d" % (g, si)
